@@ -122,7 +122,7 @@ func TestCheck(t *testing.T) {
 		f    func(*rand.Rand) (ref.Pos, bool)
 		n    int
 	}
-	for _, s := range []src{{"dense", gen.Dense, r.N(60000, 600000)}, {"sparse", gen.Sparse, r.N(40000, 400000)}, {"adv", gen.Adv, r.N(160000, 1600000)}, {"prepush", gen.PrePush, r.N(200000, 2000000)}} {
+	for _, s := range []src{{"dense", gen.Dense, r.N(60000, 3000000)}, {"sparse", gen.Sparse, r.N(40000, 2000000)}, {"adv", gen.Adv, r.N(160000, 8000000)}, {"prepush", gen.PrePush, r.N(200000, 10000000)}} {
 		ev.Parallel(s.n/chunk, func(wk, i int) {
 			lc := lcs[wk]
 			rng := r.RNG("c02-"+s.name, i)
@@ -161,7 +161,7 @@ func TestCheck(t *testing.T) {
 
 	// (b) histories: the engine board is carried along, never reloaded
 	corpus := gen.Corpus()
-	games := r.N(8000, 80000)
+	games := r.N(8000, 400000)
 	ev.Parallel(games, func(wk, i int) {
 		lc := lcs[wk]
 		rng := r.RNG("c02-hist", i)
@@ -200,7 +200,7 @@ func TestCheck(t *testing.T) {
 	})
 
 	// (c) UCI: position (startpos | fen F) moves ... ; fen
-	nu := r.N(6000, 60000)
+	nu := r.N(6000, 300000)
 	ev.Parallel(nu, func(wk, i int) {
 		rng := r.RNG("c02-uci", i)
 		var start ref.Pos
